@@ -935,7 +935,9 @@ func c11Get(r *core.Report, name, pos string, ps []paths.Path) {
 	// did wait re-test the loop condition as a whole; the paths that did not wait carry its atoms, and
 	// the loop is left the same way each time.)
 	for _, pa := range ps {
-		if len(pa) == 0 || pa[len(pa)-1].Kind != "RET" || pa.Has("WAIT") || pa.Has("CUT") || !pa.Consistent() {
+		// (paths through a followed helper are left out: what a helper with several results hands back
+		// is not correlated with the tests made on it afterwards)
+		if len(pa) == 0 || pa[len(pa)-1].Kind != "RET" || pa.Has("WAIT") || pa.Has("CUT") || pa.Has("ENTER") || !pa.Consistent() {
 			continue
 		}
 		if !pa.Has("REMOVEFIRST") {
